@@ -87,6 +87,17 @@ func runC03(c *Ctx) {
 	r, p := c.R, c.P
 	r.Summary = "C03 (the parsed tree is the tree the SQL grammar prescribes): decided clause = the operator precedence/associativity ladder, recovered from the recursive-descent code: the chain of operand calls from parseExpression downwards orders the operator classes as OR < AND < comparison < || < +,- < *,/,% < JSON/cast; each left-associative level builds its node in a loop that folds the previous result into Left; in every function that builds a binary node from two parsed operands both operands are parsed by the same callee (otherwise `a = b + 1` parses the right side at a tighter level than the left)."
 	r.NotCov = []string{"clause-by-clause construction, written values, aliases, 'never rejected' and every other part of C03: relations between input text and tree values"}
+	r.Rule("prefilter-admits-keys", "a function of the token conversion / tokenizer / keyword packages that rejects a word by its length before comparing it with string constants admits the length of every constant it compares with")
+	if npf := c03PrefilterAdmitsKeys(c, c.P, []string{"pkg/sql/parser", "pkg/sql/tokenizer", "pkg/sql/keywords", "pkg/models"}, nil); npf == 0 {
+		r.OK("prefilter-admits-keys", "scan", "-", "no word-typing function rejects by length before comparing with constants")
+	}
+	if c.Controls {
+		if cp := c.Control("c03"); cp != nil {
+			fired := map[string]bool{}
+			c03PrefilterAdmitsKeys(c, cp, []string{"gosqlxsa/controls/c03"}, fired)
+			r.Control("prefilter-admits-keys", fired["c03.tooNarrow"] && !fired["c03.wideEnough"], "controls/c03 tooNarrow (n < 4 before a switch with \"ANY\") and wideEnough")
+		}
+	}
 	r.Rule("ladder-order", "following the left-operand callee from parseExpression gives a chain of functions whose operator classes appear in the standard order OR, AND, comparison, ||, additive, multiplicative; operator classes of different levels are disjoint")
 	r.Rule("left-assoc", "the OR, AND, ||, additive and multiplicative levels construct their BinaryExpression inside a loop whose Left operand includes the previously built node")
 	r.Rule("operand-symmetry", "where a BinaryExpression is built from two parsed operands, the callee that parsed the right operand is the callee that parsed the left operand (not a looser level, not the function itself: that would fold a chain to the right)")
